@@ -24,11 +24,11 @@ PROPS = {
     },
     "C02": {
         "technique": "runtime monitoring: (1) label-flow invariants over every consistent derivation of generated trees, (2) rewriter-arm observations of the applied derivation through hook events, (3) channel-cut non-interference on SQLite executions of the DP-rewritten query",
-        "level_text": "Exploration: ~25k tree configurations per quick run for the label-flow and arm monitors: for each consistent derivation, a protected table is never labelled Public/Published/DP, no node labelled Public/Published depends on a protected table without a PUP->DP reduce in between, DP labels only on reduces over PUP inputs; for the applied derivation, PUP-labelled nodes carry the privacy-unit columns, synthetic tables are substituted, DP reduces go through the DP aggregation, the root label is acceptable.",
+        "level_text": "Exploration: ~25k tree configurations per quick run for the label-flow and arm monitors: for each consistent derivation, a protected table is never labelled Public/Published/DP, no node labelled Public/Published depends on a protected table without a PUP->DP reduce in between, DP labels only on reduces over PUP inputs; for the applied derivation, PUP-labelled nodes carry the privacy-unit columns, synthetic tables are substituted, DP reduces go through the DP aggregation, the root label is acceptable. Channel-cut monitor: ~5k DP queries x 4 variants of the protected tables (everything re-drawn, one cell changed, one unit removed, all emptied): with every noised aggregate column and every thresholded key set pinned to the values of the first run, the final result must be identical.",
         "level_note": "Trusted: the brute-force enumerator and the raw(n) dataflow definition; hook events for 'which arm'.",
         "rule": ("4 queries per generated DP world x synthetic flag x strategy x entry point; evaluation = one tree configuration; distinct non-trivial = distinct configurations."),
         "assumptions": COMMON_ASSUME,
-        "quick": {"shards": 16, "cases": 500, "watchdog_s": 1500, "require": {"evaluations": 20000, "derivations_checked": 40000, "applied_derivations_observed": 8000}},
+        "quick": {"shards": 16, "cases": 700, "watchdog_s": 1500, "require": {"evaluations": 20000, "derivations_checked": 40000, "applied_derivations_observed": 8000, "queries_with_channels_cut": 4000, "variant:0": 4000}},
         "thorough": {"shards": 16, "cases": 12000, "watchdog_s": 14400, "require": {"evaluations": 500000}},
     },
     "C03": {
